@@ -54,6 +54,7 @@ func VerifC06_median() {
 	ctx, _, _ := ndEnv("oracle")
 	n := 1 + ndLen("n", c06N())
 	reports := vReports(n, 1<<61, "")
+	c06TotalBelow2p63(reports)
 	orig := vCopyReports(reports)
 	var k Keeper
 	agg, err := k.WeightedMedian(ctx, reports, 7)
@@ -83,6 +84,7 @@ func VerifC06_median_order() {
 	ctx, _, _ := ndEnv("oracle")
 	n := 2 + ndLen("n", c06N()-1)
 	reports := vReports(n, 1<<61, "")
+	c06TotalBelow2p63(reports)
 	// second run on a rotated / swapped copy
 	perm := vCopyReports(reports)
 	switch ndPick("perm", 3) {
@@ -164,4 +166,14 @@ func VerifC06_mode_empty() {
 	_, err := k.WeightedMode(ctx, []types.MicroReport{}, 1)
 	ndAssert(err != nil, "empty-reports-is-an-error")
 	ndReach("ran")
+}
+
+
+// c06TotalBelow2p63: the statement's range: total reporting power below 2^63
+func c06TotalBelow2p63(reports []types.MicroReport) {
+	total := uint64(0)
+	for _, r := range reports {
+		total += r.Power // each power <= 2^61 and at most 5 reports: no wrap-around
+	}
+	ndAssume(total < 1<<63)
 }
